@@ -31,11 +31,24 @@ def record(y, hw=False):
     return text, evs
 
 
-def prepare(evs):
+def prepare(evs, y=None):
     """Total, purely syntactic preparation: defaults for absent fields, identifiers defined/used by the logged statements."""
     out = []
+    per_einsum = []
+    if y is not None:
+        import execpipe
+        import hfir
+        for ex in execpipe.load_yaml(y)["einsum"]["expressions"]:
+            es = hfir.parse_einsum(ex)
+            used = [es["out"]["name"]] + [f["name"] for t in es["terms"] for f in t["facs"] if f["k"] == "t"]
+            imath = any(len(a) > 1 or a[0]["c"] != 1 for t in es["terms"] for f in t["facs"] for a in f["idx"]) or any(len(a) > 1 for a in [hfir.parse_einsum(ex)["out"]["idx"]] if False)
+            per_einsum.append((used, imath))
+    cur = ([], True)
     for e in evs:
         e = dict(e)
+        if e["ev"] in ("PreBegin", "Begin") and per_einsum and "einsum" in e:
+            cur = per_einsum[e["einsum"]]
+        e["used"], e["imath"] = list(cur[0]), bool(cur[1])
         e.setdefault("stmts", [])
         e.setdefault("popped", [])
         e.setdefault("node", {"kind": "-", "type": "-"})
@@ -43,7 +56,8 @@ def prepare(evs):
         e["node"].setdefault("type", "-")
         e["node"].setdefault("tensor", "-")
         e["node"].setdefault("ranks", [])
-        e["node"] = {k: v for k, v in e["node"].items() if k in ("kind", "type", "tensor", "ranks")}
+        e["node"] = {k: v for k, v in e["node"].items() if k in ("kind", "type", "tensor", "ranks", "rank")}
+        e["node"].setdefault("rank", "-")
         if not isinstance(e["node"]["ranks"], list):
             e["node"]["ranks"] = []
         e["out"] = e.get("out", "-")
@@ -59,7 +73,7 @@ def prepare(evs):
                     (defs if isinstance(n.ctx, ast.Store) else uses).append(n.id)
         e["defs"], e["uses"] = defs, uses
         e.pop("einsum", None)
-        out.append({k: e[k] for k in ("ev", "node", "stmts", "popped", "out", "tmp", "tensors", "defs", "uses")})
+        out.append({k: e[k] for k in ("ev", "node", "stmts", "popped", "out", "tmp", "tensors", "defs", "uses", "used", "imath")})
     return out
 
 
